@@ -31,20 +31,6 @@ def expandModel (t : Term) : List String :=
     | _ => "items -"
   [exp, dcg, body, items]
 
-/-- specification of "the goals of a clause body": conjunction is associative (ISO 7.8.5: cut is
-    transparent to ','/2), so all nested conjunctions are flattened -/
-def flattenConj : Term → List Term
-  | .app "," (.cons a (.cons b .nil)) => flattenConj a ++ flattenConj b
-  | t => [t]
-
-/-- top-level disjuncts (an if-then-else is one disjunct) -/
-def splitAlt : Term → List Term
-  | .app ";" (.cons a (.cons b .nil)) =>
-    match a with
-    | .app "->" (.cons _ (.cons _ .nil)) => [.app ";" (.cons a (.cons b .nil))]
-    | _ => a :: splitAlt b
-  | t => [t]
-
 /-- the same four sections from the specification (reader + reference translation) -/
 def expandSpec (t : Term) : List String :=
   let n := boundT t
@@ -66,7 +52,7 @@ def expandSpec (t : Term) : List String :=
     | .ok r =>
       match (r.tr n).1 with
       | .app ":-" (.cons _ (.cons b .nil)) =>
-        "items " ++ pterm [t, Term.list ((splitAlt b).map fun a => Term.list (flattenConj a))]
+        "items " ++ pterm [t, Term.list ((disjuncts b).map fun a => Term.list (conjuncts a))]
       | _ => "items -"
     | .error _ => "items -"
   [exp, dcg, body, items]
